@@ -533,38 +533,40 @@ def run_c09(prop, tier, seed, t0):
                 nonlin += bad
         log('linearizability search: %d histories, %d without a linearization, %.1fs' % (nhist, len(nonlin), time.time() - tv))
         samples = meta['samples'][:2]
-    # second history shape: bursts of concurrent Gets, then Puts that must evict the cold keys (BurstTrace)
-    burst = dict(histories=0, events=0, rejected=0)
-    if not crashed:
+    # further history shapes, each with its own (cheaper, specialised) trace specification:
+    #   burst: concurrent Gets of the warm keys, then Puts that must evict the cold keys (BurstTrace)
+    #   duel:  Get(k) against one concurrent writer of the same entry, then the quiescent state (DuelTrace)
+    shapes = {}
+    for kind, module in (('burst', 'BurstTrace'), ('duel', 'DuelTrace')):
+        if crashed:
+            break
         try:
-            bmeta = vlib.run_harness(work, prop, seed, tier, env=env, extra=['-kind', 'burst'])
+            bmeta = vlib.run_harness(work, prop, seed, tier, env=env, extra=['-kind', kind])
         except vlib.HarnessDied as e:
             if 'fatal error: concurrent map' in e.text or 'DATA RACE' in e.text:
                 k += 1
                 violations.append(vlib.save_witness(prop, k, [e.text], 'txt'))
-                bmeta = None
-            else:
-                raise
-        if bmeta:
-            res = vlib.validate_dir(work, 'BurstTrace', 'BurstTrace.cfg', bmeta['dir'], stack='512m')
-            rej = gather_rejects(work, res, 'abs')
-            burst = dict(histories=bmeta['histories'], events=bmeta['events'], rejected=len(rej))
-            for r in rej[:MAX_CONFIRM]:
-                k += 1
-                wit = vlib.save_witness(prop, k, r['events'])
-                # the recorded history is the evidence (a schedule cannot be replayed): alone it must be rejected again
-                v = vlib.validate_file(work, 'BurstTrace', 'BurstTrace.cfg', wit, stack='512m')
-                if not v['rejects']:
-                    os.remove(wit)
-                    raise MachineryError('burst witness %s was accepted when validated alone' % wit)
-                violations.append(wit)
-            races = scan_race_logs(racedir)
-            if not mdsrace and [r for r in races if 'creachadair/mds/' in r]:
-                k += 1
-                violations.append(vlib.save_witness(prop, k, ['Go race detector report while running concurrent Get bursts:',
-                                                              [r for r in races if 'creachadair/mds/' in r][0]], 'txt'))
-            nhist += bmeta['histories']
-            shutil.rmtree(bmeta['dir'], True)
+                continue
+            raise
+        res = vlib.validate_dir(work, module, module + '.cfg', bmeta['dir'], stack='512m')
+        rej = gather_rejects(work, res, 'abs')
+        shapes[kind] = dict(histories=bmeta['histories'], events=bmeta['events'], rejected=len(rej), trace_spec=module)
+        for r in rej[:MAX_CONFIRM]:
+            k += 1
+            wit = vlib.save_witness(prop, k, r['events'])
+            # the recorded history is the evidence (a schedule cannot be replayed): alone it must be rejected again
+            v = vlib.validate_file(work, module, module + '.cfg', wit, stack='512m')
+            if not v['rejects']:
+                os.remove(wit)
+                raise MachineryError('%s witness %s was accepted when validated alone' % (kind, wit))
+            violations.append(wit)
+        nhist += bmeta['histories']
+        shutil.rmtree(bmeta['dir'], True)
+    if not crashed and not mdsrace:
+        late = [r for r in scan_race_logs(racedir) if 'creachadair/mds/' in r]
+        if late:
+            k += 1
+            violations.append(vlib.save_witness(prop, k, ['Go race detector report while running bursts / duels:', late[0]], 'txt'))
     rer = {}
     for line in nonlin[:MAX_CONFIRM]:
         k += 1
@@ -584,8 +586,8 @@ def run_c09(prop, tier, seed, t0):
             rer[os.path.basename(wit)] = '%d of %d reruns of the same workload had no linearization' % (len(bad2), tot)
     extra = dict(model_checking_runs=mcs, histories_recorded=nhist, non_linearizable=len(nonlin),
                  race_detector=dict(enabled=True, reports=len(races), reports_on_mds=len(mdsrace)),
-                 reruns=rer, trace_spec='LinTrace (linearizability search against LRU.tla); BurstTrace (tiered LRU abstraction for bursts of commuting Gets)',
-                 burst_histories=burst,
+                 reruns=rer, trace_spec='LinTrace (linearizability search against LRU.tla); BurstTrace (tiered LRU abstraction for bursts of commuting Gets); DuelTrace (two-call linearizability, one record per duel)',
+                 other_history_shapes=shapes,
                  gomaxprocs=[1, 2, 4, 8])
     extra['linearizability_search_states'] = dict(LIN_STATS)
     states += LIN_STATS['distinct']
